@@ -22,6 +22,20 @@ theorem pt_evaluate_eq (cfg : PTCfg) (s : PopSt) (score : F) : PT_evaluate cfg s
 theorem pso_evaluate_eq (cfg : LocalCfg) (s : PopSt) (score : F) : PSO_evaluate cfg s score = psoEvaluate cfg s score := rfl
 theorem spiral_evaluate_eq (cfg : LocalCfg) (s : PopSt) (score : F) : Spiral_evaluate cfg s score = spiralEvaluate s score := rfl
 
+/-! EvolutionStrategyOptimizer -/
+theorem es_cross_eq (cfg : ESCfg) (s : PopSt) (perm : List Nat) (k : Nat) (tape : Tape) :
+    ES_cross cfg s perm k tape = esCross cfg s perm k tape := by
+  unfold ES_cross esCross secondParentOK emitVia; rfl
+theorem es_iterate_eq (cfg : ESCfg) (s : PopSt) : ES_iterate (ES_cross cfg s) cfg s = esIterate cfg s := by
+  have h : ES_cross cfg s = esCross cfg s := by funext p k t; exact es_cross_eq cfg s p k t
+  rw [h]; rfl
+theorem es_init_pos_eq (cfg : ESCfg) (s : PopSt) : ES_init_pos cfg s = ptInitPos s := rfl
+theorem es_evaluate_eq (cfg : ESCfg) (s : PopSt) (score : F) : ES_evaluate cfg s score = psoEvaluate cfg.member s score := rfl
+theorem es_backend_steps (cfg : ESCfg) :
+    (esBackend cfg).iterate = (fun s => ES_iterate (ES_cross cfg s) cfg s) ∧ (esBackend cfg).initPos = ES_init_pos cfg ∧
+      (esBackend cfg).evaluate = ES_evaluate cfg :=
+  ⟨by funext s; exact (es_iterate_eq cfg s).symm, rfl, rfl⟩
+
 /-- the three backends run the generated steps -/
 theorem pt_backend_steps (cfg : PTCfg) :
     (ptBackend cfg).iterate = PT_iterate cfg ∧ (ptBackend cfg).initPos = PT_init_pos cfg ∧ (ptBackend cfg).evaluate = PT_evaluate cfg :=
